@@ -83,6 +83,13 @@ def run_case(case):
             # one is sometimes first, sometimes last)
             s = H.Sub(log, f"{kind}:{ent}:{i}", raises=bool(mask >> (i % 4) & 1) and i < 8,
                       hashv=rnd.getrandbits(20))
+            if s.raises:
+                # what it raises: an ordinary exception, a time-out of its own, or the
+                # cancellation of something it awaited
+                s.raises = rnd.choice([True, True, "timeout", "cancelled"])
+                if s.raises == "cancelled":
+                    obs["subscribers_ending_cancelled"] = obs.get(
+                        "subscribers_ending_cancelled", 0) + 1
             # a third of the subscribers are registered as bound methods: every subscribe /
             # unsubscribe call then passes an equal but not identical callable
             bound = rnd.random() < 0.35
